@@ -210,9 +210,14 @@ impl FsCommand {
     fn check_preconditions(&self) -> io::Result<()> {
         match self {
             FsCommand::Remove { file } => Self::check_can_unlink(&file.path),
-            FsCommand::SoftLink { link, .. } | FsCommand::HardLink { link, .. } => {
+            FsCommand::SoftLink { link, .. } => {
                 Self::check_can_unlink(&link.path)?;
                 Self::check_can_create_temp_file(&link.path)
+            }
+            FsCommand::HardLink { target, link } => {
+                Self::check_can_unlink(&link.path)?;
+                Self::check_can_create_temp_file(&link.path)?;
+                Self::check_can_link_to(&target.path)
             }
             FsCommand::RefLink { link, .. } => {
                 Self::check_can_unlink(&link.path)?;
@@ -243,13 +248,15 @@ impl FsCommand {
                     ),
                 ));
             }
-            // An immutable or append-only file cannot be removed or renamed by anybody
+            // An immutable or append-only file cannot be removed or renamed by anybody,
+            // and no entry of such a directory
             #[cfg(any(target_os = "linux", target_os = "android"))]
-            if Self::is_immutable(path) {
+            if Self::is_immutable(path) || Self::is_immutable(dir) {
                 return Err(io::Error::new(
                     ErrorKind::PermissionDenied,
                     format!(
-                        "Cannot remove or replace {}: the file is immutable or append-only",
+                        "Cannot remove or replace {}: the file or its directory is immutable \
+                         or append-only",
                         path.display()
                     ),
                 ));
@@ -302,6 +309,52 @@ impl FsCommand {
             }
             Err(_) => false,
         }
+    }
+
+    /// No hard link can be made to an immutable or append-only file.
+    fn check_can_link_to(target: &Path) -> io::Result<()> {
+        #[cfg(any(target_os = "linux", target_os = "android"))]
+        if Self::is_immutable(target) {
+            return Err(io::Error::new(
+                ErrorKind::PermissionDenied,
+                format!(
+                    "Cannot link to {}: the file is immutable or append-only",
+                    target.display()
+                ),
+            ));
+        }
+        #[cfg(not(any(target_os = "linux", target_os = "android")))]
+        let _ = target;
+        Ok(())
+    }
+
+    /// The lock needs the file to be opened, for writing or at least for reading.
+    /// Returns an error if neither is possible.
+    fn check_can_lock(&self) -> io::Result<()> {
+        #[cfg(unix)]
+        {
+            use nix::unistd::{access, AccessFlags};
+            let path = self.file_to_remove();
+            // a symbolic link is never locked
+            let is_link = fs::symlink_metadata(path.to_path_buf())
+                .map_or(false, |m| m.file_type().is_symlink());
+            let path_buf = path.to_path_buf();
+            let can_open = access(&path_buf, AccessFlags::W_OK)
+                .or_else(|_| access(&path_buf, AccessFlags::R_OK));
+            if let (false, Err(e)) = (is_link, can_open) {
+                let e = io::Error::from(e);
+                return Err(io::Error::new(
+                    e.kind(),
+                    format!(
+                        "Cannot lock {}: the file can be opened neither for writing \
+                         nor for reading: {} (use --no-lock to process it)",
+                        path.display(),
+                        e
+                    ),
+                ));
+            }
+        }
+        Ok(())
     }
 
     /// On Linux the data of the retained file are cloned into the existing file,
@@ -1372,7 +1425,12 @@ where
                             let script: Vec<_> = group
                                 .dedupe_script(&op, &devices)
                                 .into_iter()
-                                .filter(|cmd| match cmd.check_preconditions() {
+                                .filter(|cmd| match cmd.check_preconditions().and_then(|_| {
+                                    match config.no_lock {
+                                        true => Ok(()),
+                                        false => cmd.check_can_lock(),
+                                    }
+                                }) {
                                     Ok(()) => true,
                                     Err(e) => {
                                         log.warn(e);
